@@ -31,6 +31,10 @@ LCAdv(s, p, from, to) ==
   IF from >= n THEN p ELSE FoldL(LAMBDA q, i : LCStep(s, q, i), p, [i \in 1 .. n - from |-> from + i])
 LC(s, k) == LCAdv(s, <<1, 0>>, 0, k)
 
+\* Characters that some conventions count as line breaks as well (VT, FF, NEL, LS, PS). The properties speak of LF, CR, CRLF and
+\* LFCR only; whether a scanner counts these five is left open, so line/column clauses are not applied to texts containing them.
+OtherBreaks == {11, 12, 133, 8232, 8233}
+HasOtherBreak(s) == \E i \in 1 .. Len(s) : s[i] \in OtherBreaks
 Min(a, b) == IF a < b THEN a ELSE b
 Max(a, b) == IF a > b THEN a ELSE b
 =============================================================================
